@@ -245,6 +245,8 @@ def conforms(val, sig):
         return 's' in val and val['s'].startswith('/')
     if sig == 'b':
         return 'bool' in val or 'n' in val
+    if sig in ('y', 'q', 'u', 't', 'n', 'i', 'x') and 'bool' in val:
+        return True      # a Python bool is an int (0/1) to dbus-python's integer marshalling
     if sig in ('y', 'q', 'u', 't'):
         bits = {'y': 8, 'q': 16, 'u': 32, 't': 64}[sig]
         return 'n' in val and 0 <= val['n'] < (1 << bits)
